@@ -127,9 +127,12 @@ def multi_cases(draw, kind):
         vals = V_B if kind == 'viterbi' else vals_for(kind, b_alphabet(kind))
         return draw(gp.tensor_specs(tys, values=vals, defaults=(zero,), force_dense=draw(st.booleans())))
     a = {}
+    # a third of the systems have few diagonal blocks but many off-diagonal ones: cycles through blocks without a
+    # self-loop, where elimination creates fill-in on the diagonal
+    sparse_diag = nk >= 2 and draw(st.integers(0, 2)) == 0
     for x in keys:
         for y in keys:
-            if draw(st.integers(0, 9)) < 5:
+            if draw(st.integers(0, 9)) < ((2 if x == y else 8) if sparse_diag else 5):
                 spec = block(shapes[x] + shapes[y])
                 if kind == 'bool': spec['default'] = False
                 a[f'{x},{y}'] = spec
